@@ -196,8 +196,25 @@ func natsdrainHarness(rc *RunCtx) {
 			serveReturnedStep = s.Step
 			simrt.Send(siteServe, serveDone, struct{}{})
 		})
-		// wait until the subscription exists at the broker before the peer starts
 		site := simrt.HarnessSite("drain.wait-sub")
+		if tp.Intn("earlystop", 6) == 5 {
+			// Stop arrives while Serve is still setting up its subscriptions: Serve must still end, and nothing
+			// published after Stop returned may be processed
+			rc.Fault("stop-while-serve-is-starting")
+			stopInvokedStep = s.Step
+			stopErr = srv.Stop()
+			stopReturnedStep = s.Step
+			for i := 0; i < 3; i++ {
+				id := 2000 + i
+				h.reqs[id] = &drainReq{id: id}
+				inject(id)
+			}
+			simrt.Recv(siteServe, serveDone)
+			settle(time.Second)
+			finished = true
+			return
+		}
+		// wait until the subscription exists at the broker before the peer starts
 		for i := 0; b.SubCount(subjects[len(subjects)-1]) == 0 && i < 6000; i++ {
 			simrt.Block(site)
 			time.Sleep(10 * time.Millisecond)
